@@ -12,6 +12,7 @@
   Helper lemmas live in `GSV/Lemmas/CovFn.lean`.
 -/
 import GSV.Lemmas.CovFn
+import Mathlib.Topology.Algebra.Order.Field
 namespace GSV.Props.C03
 open GSV GSV.Transc GSV.Model.CovFn GSV.Lemmas.CovFn MeasureTheory Set
 
@@ -303,6 +304,30 @@ theorem integral_scale_tplSimple (p : Par ℝ) (nu : ℝ) (hnu : 0 < nu) (hl : 0
     integral_tplSimple_unit nu hnu]
   simp [tplSimpleCorIntegral]
 
+theorem integral_scale_circular (p : Par ℝ) (hl : 0 < p.lenScale) (hs : 0 < p.rescale) :
+    ∫ r in Ioi (0:ℝ), (fromCor p circularCor).correlation r = integralScale p circularCorIntegral := by
+  rw [integral_scale_scaling p _ hl hs,
+    integral_Ioi_eq_unit _ (fun x hx => by
+      have : ¬ |x| < 1 := by rw [abs_of_pos (by linarith)]; exact not_lt.mpr hx.le
+      simp [circularCor, this]),
+    integral_circular_unit]
+  simp [circularCorIntegral]
+
+/-- Matern on the slices `ν = 1/2, 3/2, 5/2` where `K_ν` is elementary -/
+theorem integral_scale_matern_slices (p : Par ℝ) (hl : 0 < p.lenScale) (hs : 0 < p.rescale) :
+    ∫ r in Ioi (0:ℝ), (fromCor p matern12Cor).correlation r = integralScale p matern12CorIntegral ∧
+    ∫ r in Ioi (0:ℝ), (fromCor p matern32Cor).correlation r = integralScale p matern32CorIntegral ∧
+    ∫ r in Ioi (0:ℝ), (fromCor p matern52Cor).correlation r = integralScale p matern52CorIntegral := by
+  refine ⟨?_, ?_, ?_⟩
+  · rw [integral_scale_scaling p _ hl hs, integral_matern12Cor]; simp [matern12CorIntegral]
+  · rw [integral_scale_scaling p _ hl hs, integral_matern32Cor]; simp [matern32CorIntegral]
+  · rw [integral_scale_scaling p _ hl hs, integral_matern52Cor]; simp [matern52CorIntegral]
+
+/-- Rational on the slice `α = 1` -/
+theorem integral_scale_rational_one (p : Par ℝ) (hl : 0 < p.lenScale) (hs : 0 < p.rescale) :
+    ∫ r in Ioi (0:ℝ), (fromCor p (rationalCor 1)).correlation r = lenRescaled p * (Real.pi / 2) := by
+  rw [integral_scale_scaling p _ hl hs, integral_rationalCor_one]; rfl
+
 /-- the closed forms returned by `Gaussian.calc_integral_scale` and `Exponential.calc_integral_scale`
     are the integral of the correlation; with the default rescale `√π/2` the Gaussian length scale *is*
     the integral scale -/
@@ -354,5 +379,51 @@ theorem percentile_exponential_gaussian (p : Par ℝ) (per : ℝ) (h0 : 0 < per)
     rw [abs_of_nonneg (mul_nonneg hL.le (Real.sqrt_nonneg _)), mul_div_assoc, mul_comm,
       div_mul_cancel₀ _ hL.ne', Real.sq_sqrt hlog, neg_neg, hexp]
     ring
+
+/-- the compactly supported closed forms are continuous: the branches of the code agree at the edge -/
+theorem compact_support_continuous :
+    Continuous (sphericalCor : ℝ → ℝ) ∧ Continuous (cubicCor : ℝ → ℝ) ∧ Continuous (linearCor : ℝ → ℝ) ∧
+    Continuous (circularCor : ℝ → ℝ) ∧ (∀ nu : ℝ, 0 < nu → Continuous (tplSimpleCor nu : ℝ → ℝ)) := by
+  refine ⟨?_, ?_, ?_, ?_, fun nu hnu => ?_⟩
+  · have : (sphericalCor : ℝ → ℝ) = fun h => 1 - 1.5 * min |h| 1 + 0.5 * (min |h| 1) ^ 3 := by
+      funext h; simp [sphericalCor, sphericalPoly, fmin_real]
+    rw [this]; fun_prop
+  · have : (cubicCor : ℝ → ℝ) = fun h => 1 - 7 * (min |h| 1) ^ 2 + 8.75 * (min |h| 1) ^ 3
+        - 3.5 * (min |h| 1) ^ 5 + 0.75 * (min |h| 1) ^ 7 := by
+      funext h; simp [cubicCor, cubicPoly, fmin_real]
+    rw [this]; fun_prop
+  · have : (linearCor : ℝ → ℝ) = fun h => max (1 - |h|) 0 := by
+      funext h; simp [linearCor, fmax_real]
+    rw [this]; fun_prop
+  · have : (circularCor : ℝ → ℝ) = fun h => circularInner (min |h| 1) := by
+      funext h; exact circular_support_edge.2.2 h
+    rw [this]
+    have hi : Continuous (circularInner : ℝ → ℝ) := by
+      have : (circularInner : ℝ → ℝ) = fun h => 2 / Real.pi * (Real.arccos h - h * Real.sqrt (1 - h ^ 2)) := by
+        funext h; simp [circularInner]
+      rw [this]
+      have := Real.continuous_arccos
+      fun_prop
+    exact hi.comp (by fun_prop)
+  · have : (tplSimpleCor nu : ℝ → ℝ) = fun h => (max (1 - |h|) 0) ^ nu := by
+      funext h; simp [tplSimpleCor, fmax_real]
+    rw [this]
+    exact Continuous.rpow_const (by fun_prop) (fun h => Or.inr hnu.le)
+
+/-- prescribing the integral scale of a model defined through `cor`: after the setter the integral of the
+    correlation over all lags is the prescribed value -/
+theorem integral_scale_setter_cor (c : ℝ → ℝ) (hI0 : 0 < ∫ h in Ioi (0:ℝ), c h) (p : Par ℝ)
+    (hs : 0 < p.rescale) (I : ℝ) (hI : 0 < I) :
+    let calcIS : Par ℝ → ℝ := fun q => lenRescaled q * ∫ h in Ioi (0:ℝ), c h
+    ∫ r in Ioi (0:ℝ), (fromCor (setIntegralScale calcIS p I) c).correlation r = I := by
+  intro calcIS
+  have hset : calcIS (setIntegralScale calcIS p I) = I :=
+    integral_scale_setter calcIS _ hI0.ne' (fun q => rfl) p hs.ne' I
+  have hlen : 0 < (setIntegralScale calcIS p I).lenScale := by
+    simp only [setIntegralScale, calcIS, lenRescaled]
+    push_cast
+    positivity
+  rw [integral_scale_scaling _ c hlen hs]
+  exact hset
 
 end GSV.Props.C03
